@@ -106,14 +106,22 @@ class Runner:
             cur = self.parent.get(cur)
         return False
 
-    def _snapshot(self):
+    def _snapshot(self, live=False):
+        """live: count the waiters that are still waiting (future not done).  A waiter that was cancelled in this
+        very loop iteration is still an entry of its table until its done-callback runs one iteration later, but it
+        waits for nothing and can no longer be completed; at a quiescent point the entries themselves must be gone."""
         nw = self.network
         cbu = self.scn.get('cbuser', 'cbpeer')
         reg = [self._conn_rec(c) for c in nw.peer_connections if c.username != cbu]
         regb = [self._conn_rec(c) for c in nw.peer_connections if c.username == cbu]
         links = sorted(self._label(l) for l in self.net.open_links())
         tasks = [t for t in asyncio.all_tasks(self.loop) if not t.done() and self._is_attempt_task(t)]
-        return dict(reg=reg, regb=regb, tw=len(nw._expected_connection_futures), rw=len(nw._expected_response_futures),
+        tws = list(nw._expected_connection_futures.values())
+        rws = list(nw._expected_response_futures)
+        if live:
+            tws = [f for f in tws if not f.done()]
+            rws = [f for f in rws if not f.done()]
+        return dict(reg=reg, regb=regb, tw=len(tws), rw=len(rws),
                     links=[x for x in links if x not in ('server', 'cb')],
                     cblinks=len([x for x in links if x == 'cb']),
                     srvlink=('server' in links),
@@ -125,11 +133,12 @@ class Runner:
         if rq is None or not rq.done() or self.reported:
             return dict(res='none')
         self.reported = True
+        ret = self.at_return if self.at_return is not None else self._snapshot()   # None: cancelled before it ever ran
         if rq.cancelled():
-            return dict(res='cancelled')
+            return dict(res='cancelled', ret=ret)
         exc = rq.exception()
         if exc is not None:
-            return dict(res='exc', cls=type(exc).__name__)
+            return dict(res='exc', cls=type(exc).__name__, ret=ret)
         c = rq.result()
         if not hasattr(c, 'connection_state') or not hasattr(c, 'state'):
             return dict(res='value', cls=type(c).__name__)       # neither a connection nor an exception
@@ -139,7 +148,7 @@ class Runner:
         w = getattr(c, '_writer', None)
         link = getattr(w, 'link', None)
         rec['link'] = bool(link is not None and link.open)
-        return dict(res='conn', rc=rec)
+        return dict(res='conn', rc=rec, ret=ret)
 
     async def _probe(self, c):
         """Usable, as the caller and the remote peer see it: one message of the connection's type is sent on
@@ -315,6 +324,7 @@ class Runner:
         self.init_ticket = None
         self.req = None
         self.reported = False
+        self.at_return = None
         self.returned = None
         self.deadlines: dict[str, float] = {}
         self.addr_wait_done = False
@@ -375,7 +385,7 @@ class Runner:
                 self._install_sendfail()
             await self._log('init', mode=scn['mode'], typ=scn['typ'], user=scn['user'], given=bool(scn.get('given')),
                             sendfail=bool(scn.get('sendfail')), badport=bool(scn.get('badport')), ports=scn['ports'],
-                            pref=bool(scn['pref']))
+                            pref=bool(scn['pref']), omit=bool(scn.get('omit')))
             for step in scn['steps']:
                 await self._apply(step)
             await self._drain()
@@ -464,6 +474,21 @@ class Runner:
                 return a
         return None
 
+    def _opt(self, op):
+        """The obfuscated-port part of GetPeerAddress / ConnectToPeer is optional on the wire: a peer without
+        an obfuscated port is reported either with both values 0 or with the fields left out (scenario 'omit')."""
+        if not op and self.scn.get('omit'):
+            return {}
+        return dict(obfuscated_port_amount=1 if op else 0, obfuscated_port=op)
+
+    async def _request(self, extra):
+        """The caller: awaits create_peer_connection and, as the very first thing after that await ended
+        (returned, raised or cancelled) and before yielding to the loop, looks at what is there."""
+        try:
+            return await self.network.create_peer_connection(self.scn['user'], self.scn['typ'], **extra)
+        finally:
+            self.at_return = self._snapshot(live=True)
+
     def _spin_done(self, until):
         from aioslsk.network.connection import PeerConnectionState
         cbu = 'cbpeer'
@@ -493,8 +518,7 @@ class Runner:
                 if scn.get('badport'):
                     port, obf = BAD_PORT, False
                 extra = dict(ip=PEER_IP, port=port, obfuscate=obf)
-            self.req = asyncio.create_task(nw.create_peer_connection(scn['user'], scn['typ'], **extra),
-                                           name='h-request')
+            self.req = asyncio.create_task(self._request(extra), name='h-request')
         elif name == 'AddrReply':
             kind = args[0]
             cp = PEER_PORT if scn['ports'] in ('clear', 'both') else 0
@@ -508,12 +532,11 @@ class Runner:
             if kind == 'ok':
                 if scn.get('badport'):          # the only port the peer is known under is not a TCP port
                     cp, op = BAD_PORT, 0
-                msg = M.GetPeerAddress.Response(scn['user'], PEER_IP, cp, obfuscated_port_amount=1 if op else 0,
-                                                obfuscated_port=op)
+                msg = M.GetPeerAddress.Response(scn['user'], PEER_IP, cp, **self._opt(op))
             elif kind == 'noip':
-                msg = M.GetPeerAddress.Response(scn['user'], '0.0.0.0', 0, obfuscated_port_amount=0, obfuscated_port=0)
+                msg = M.GetPeerAddress.Response(scn['user'], '0.0.0.0', 0, **self._opt(0))
             else:
-                msg = M.GetPeerAddress.Response(scn['user'], PEER_IP, 0, obfuscated_port_amount=0, obfuscated_port=0)
+                msg = M.GetPeerAddress.Response(scn['user'], PEER_IP, 0, **self._opt(0))
             self.session.send(msg)
             kw['kind'] = kind
         elif name in ('ConnOk', 'BConnOk'):
@@ -604,7 +627,7 @@ class Runner:
             if kw['kind'] == 'badport':
                 cp, op = (BAD_PORT if cp else 0), (BAD_PORT + 1 if op else 0)
             self.session.send(M.ConnectToPeer.Response('cbpeer', scn.get('cbtyp', 'P'), CB_IP, cp, CB_TICKET, False,
-                                                       obfuscated_port_amount=1 if op else 0, obfuscated_port=op))
+                                                       **self._opt(op)))
         else:
             raise MachineryFailure(f'unknown stimulus {step!r}')
         if until is not None and name != 'timeout':
@@ -811,7 +834,10 @@ def usability_schedules():
             for given, ports, pref in ((False, 'clear', False), (False, 'obf', False), (False, 'both', True),
                                        (False, 'both', False), (True, 'obf', False), (True, 'clear', False)):
                 steps = [R] + ([] if given else [('AddrReply', 'ok')]) + [('ConnOk', 'ok')]
-                out.append(((mode, given, False, False), steps, dict(typ=typ, ports=ports, pref=pref)))
+                out.append(((mode, given, False, False), steps, dict(typ=typ, ports=ports, pref=pref, omit=False)))
+            for omit in (False, True):      # only a clear port, obfuscation preferred, optional fields 0 / left out
+                out.append(((mode, False, False, False), [R, ('AddrReply', 'ok'), ('ConnOk', 'ok')],
+                            dict(typ=typ, ports='clear', pref=True, omit=omit)))
             for pvia in ('clear', 'obf'):
                 steps = [R, ('AddrReply', 'noip'), ('Pierce',)] if mode == 'fallback' else [R, ('Pierce',)]
                 out.append(((mode, False, False, False), steps, dict(typ=typ, pvia=pvia)))
@@ -823,7 +849,8 @@ def usability_schedules():
 # ---------------------------------------------------------------------------
 
 USERS = ['bob', 'Al Ice', 'm\u00fcller99']
-CONCRETE = [dict(typ=t, ports=po, pref=pr, pvia=pv, cbports=cb, cbtyp=ct)
+CONCRETE = [dict(typ=t, ports=po, pref=pr, pvia=pv, cbports=cb, cbtyp=ct, omit=om)
+            for om in (False, True)
             for t in ('P', 'F', 'D') for po in ('clear', 'obf', 'both') for pr in (False, True)
             for pv, cb, ct in (('clear', 'clear', 'P'), ('obf', 'obf', 'F'), ('clear', 'both', 'D'))]
 
@@ -881,6 +908,9 @@ def _fingerprint(tid, info, trace):
             return f"C11:error-class:{mode}:{ev.get('cls')}-escapes-create_peer_connection"
         if what == 'ctp_request' and ev.get('batt') and 'CC' not in (ev.get('srv') or ()) and 'bpierce' not in (ev.get('peer') or ()):
             return f"C11:connect-back-not-answered:{ev.get('kind')}"
+        if what == 'addr' and ev.get('kind') == 'ok' and not ev.get('att') and not hdr.get('badport'):
+            return (f"C11:no-connect-attempt-to-the-offered-port:{mode}:ports={hdr.get('ports')}:"
+                    f"prefer-obfuscated={bool(hdr.get('pref'))}:optional-fields-omitted={bool(hdr.get('omit'))}")
         if what == 'stuck':
             return f"C11:code-not-where-the-model-is:{mode}:{str(ev.get('what'))[:40]}"
         return f"C11:unexplained:{mode}:{what}:res={res}{':' + str(ev.get('cls')) if ev.get('cls') else ''}"
@@ -897,6 +927,23 @@ def _hint(trace):
             return ('stuck', hdr.get('mode')), i
         if r.get('res', 'none') != 'none' and reported is None:
             reported = (r['res'], (r.get('rc') or {}).get('inc'))
+            rt = r.get('ret')
+            if rt:
+                keep = 1 if reported[0] == 'conn' else 0
+                if reported[0] == 'cancelled':
+                    keep = len([c for c in rt['reg'] if c['st'] == 'CONNECTED' and c['cs'] != 'AWAITING_INIT'])
+                left = []
+                if rt['tw'] or rt['rw']:
+                    left.append('waiters')
+                if len(rt['reg']) != keep or len(rt['links']) != keep:
+                    extra = sorted(c['st'] + ('-incoming' if c['inc'] else '') for c in rt['reg']
+                                   if not (keep and c['cs'] != 'AWAITING_INIT' and c['st'] == 'CONNECTED' and
+                                           (reported[0] == 'cancelled' or c['inc'] == reported[1])))
+                    left.append('conn-' + '-'.join(extra or ['link-open']))
+                if rt['tasks']:
+                    left.append('tasks')
+                if left:
+                    return ('left-at-return', hdr.get('mode'), reported[0], '+'.join(left)), i
         if reported:
             sn = r['snap']
             keep = 1 if reported[0] == 'conn' else 0
@@ -933,7 +980,8 @@ def _diagnose(trace, fine=False):
                               constraint_cfg='TraceFine.cfg' if fine else 'Trace.cfg')
 
 
-_LEFT_INVS = ('NoWaiterLeftObs', 'NoOrphanConnectionObs', 'NoOrphanTaskObs')
+_LEFT_INVS = ('NoWaiterLeftObs', 'NoOrphanConnectionObs', 'NoOrphanTaskObs',
+              'NoWaiterLeftAtReturn', 'NoOrphanConnectionAtReturn', 'NoOrphanTaskAtReturn')
 
 
 def _diagnose_by_class(v, traces, max_diag=12, fine=False):
@@ -970,11 +1018,12 @@ def _diagnose_by_class(v, traces, max_diag=12, fine=False):
                                            event=traces[tid - 1][at],
                                            detail=f'same observable class as trace {reps[0]}, which TLC diagnosed')
             continue
-        if key[0] != 'left':
+        if key[0] not in ('left', 'left-at-return'):
             for tid in tids:
                 fps[tid] = _fingerprint(tid, infos[tid], traces[tid - 1]) if tid in infos else 'C11:rejected-trace'
             continue
-        label = f'C11:left-behind:{key[1]}:{key[2]}:{key[3]}'
+        label = (f'C11:left-behind:{key[1]}:{key[2]}:{key[3]}' if key[0] == 'left' else
+                 f'C11:left-behind-at-the-instant-of-return:{key[1]}:{key[2]}:{key[3]}')
         rep_ok = (not reps) or (infos[reps[0]].get('kind') == 'property' and infos[reps[0]].get('name') in _LEFT_INVS)
         for tid in tids:
             if not rep_ok:
@@ -1023,6 +1072,11 @@ def _corruptions(traces):
     if tr:
         tr[i]['rc']['rx'] = False
         out.append(('returned-connection-deaf', tr))
+    tr, i = first(lambda t, i, r: r.get('res') == 'conn' and t[0].get('mode') == 'race')
+    if tr:
+        tr[i]['ret']['tw'] = 1
+        tr[i]['ret']['rw'] = 1
+        out.append(('waiters-still-there-at-the-instant-of-return', tr))
     tr, i = first(lambda t, i, r: r.get('res') == 'exc')
     if tr:
         tr[i]['cls'] = 'ConnectionWriteError'
